@@ -259,6 +259,9 @@ fn run_converted_from_uri(full: bool, text: &str, ops: &[Op], cx: &mut Ctx) -> R
 
 pub fn op_strategy(o: Opt, full: bool, tier: Tier) -> BoxedStrategy<Op> {
 	let n = tier.pick(4usize, 8);
+	// arguments may contain characters their type must reject: they are filtered through the
+	// library's own constructor, so a constructor that is too lax shows up as an ill-formed buffer
+	let o = o.with_invalid(true);
 	prop_oneof![
 		5 => setop(o, full).prop_map(Op::Set),
 		2 => vec(aop(o), 1..=n).prop_map(Op::Auth),
